@@ -833,6 +833,33 @@ class FuncAnalysis:
                     if x is not None:
                         self.ev(x, env)
 
+    def slices_feasible(self, sl: ast.expr) -> bool:
+        """The whole index is one name whose ELEMENTS this function tests with isinstance(.., slice): an index made of slices is
+        an input the function provides for, and with it the subscript is basic indexing."""
+        if not isinstance(sl, ast.Name):
+            return False
+        cached = getattr(self, "_slice_tested", None)
+        if cached is None:
+            cached = set()
+            loops = {}
+            for n in walk_no_nested(self.fi.node):
+                it = None
+                if isinstance(n, (ast.For, ast.comprehension)):
+                    it, tg = n.iter, n.target
+                    if isinstance(it, ast.Call) and dotted(it.func) == "enumerate" and it.args and isinstance(tg, ast.Tuple) and len(tg.elts) == 2:
+                        it, tg = it.args[0], tg.elts[1]
+                    if isinstance(it, ast.Name) and isinstance(tg, ast.Name):
+                        loops[tg.id] = it.id
+            for n in walk_no_nested(self.fi.node):
+                if isinstance(n, ast.Call) and dotted(n.func) == "isinstance" and len(n.args) == 2 and isinstance(n.args[0], ast.Name) \
+                        and n.args[0].id in loops:
+                    ty = n.args[1]
+                    tys = ty.elts if isinstance(ty, ast.Tuple) else [ty]
+                    if any(isinstance(t, ast.Name) and t.id == "slice" for t in tys):
+                        cached.add(loops[n.args[0].id])
+            self._slice_tested = cached
+        return sl.id in cached
+
     def index_is_basic(self, sl: ast.expr, env) -> Optional[bool]:
         """True: only ints/slices/None/Ellipsis (view). False: some advanced index (copy). None: unknown."""
         parts = sl.elts if isinstance(sl, ast.Tuple) else [sl]
@@ -1041,6 +1068,9 @@ class FuncAnalysis:
                 return AV("nd", E, base.dp, base.ud, None, base.why or "basic slice (view)")
             if b is False:
                 return AV("nd")
+            if self.slices_feasible(e.slice):
+                return AV("nd", E, base.dp, base.ud, None,
+                          base.why or f"`{ast.unparse(e.slice)}` can consist of slices only (its elements are tested for `slice` here): basic indexing, a view")
             return AV("nd", E, E, base.dp | base.ud)
         if base.kind in ("list", "tuple"):
             if isinstance(e.slice, ast.Slice):
